@@ -79,6 +79,9 @@ pub fn gen(r: &mut Rng) -> Value {
         // searched for values that are themselves command names
         "array_contains ${sp} pwd", "array_contains ${sp} array", "array_contains ${sp} zz", "array_contains ${sp} \"a b\"", "array_join ${sp} ,", "array_is_empty ${sp}",
         "map_contains_value ${mp} pwd", "map_contains_value ${mp} =",
+        // an argument value that starts with `=` (class of the C09 known finding: the body's `if <command> ${argument}`
+        // re-reads `<command> =x` as an assignment to a variable named like the command)
+        "array_join ${arr} \"=\"", "join_path \"=a\" b", "array_concat \"=x\" ${arr}", "set_from_array \"=x\"", "array_join ${arr} \"=-\"",
         // arguments that name the called command's own working variables
         "unset vb scope::unset::arguments", "unset scope::unset::arguments", "unset scope::unset::name vb", "is_empty scope::is_empty::arguments",
     ];
@@ -86,7 +89,7 @@ pub fn gen(r: &mut Rng) -> Value {
     let seq: Vec<String> = (0..n).map(|_| r.pick(&calls).to_string()).collect();
     // caller variables whose names are close to the names the called command uses internally (same textual
     // prefix without the `::` delimiter, the bare scope name, numbered names, names used inside script bodies)
-    let shapes = ["scope::@", "scope::@_x::v", "scope::@x", "scope::@:", "@", "@::v", "scope::", "scope", "1", "2", "argument", "array", "result", "scope::@ ::v"];
+    let shapes = ["is_empty", "is_array", "contains", "equals", "not", "scope::@", "scope::@_x::v", "scope::@x", "scope::@:", "@", "@::v", "scope::", "scope", "1", "2", "argument", "array", "result", "scope::@ ::v"];
     let mut extra = vec![];
     for _ in 0..r.below(4) {
         let cmd = r.pick(&seq).split(' ').next().unwrap_or("x").to_string();
@@ -101,7 +104,8 @@ pub fn gen(r: &mut Rng) -> Value {
 pub fn class_of(input: &Value) -> &'static str {
     let calls: Vec<String> = input["calls"].as_array().map(|a| a.iter().map(|c| c.as_str().unwrap_or("").to_string()).collect()).unwrap_or_default();
     let n = calls.iter().filter(|c| c.starts_with("array_concat nohandle")).count();
-    if n >= 2 { "script-command-for-loop-left-by-error-then-called-again" } else { "other" }
+    let eq = calls.iter().any(|c| c.split(' ').skip(1).any(|a| a.starts_with('=') || a.starts_with("\"=")));
+    if eq { "script-command-argument-starting-with-equals-sign" } else if n >= 2 { "script-command-for-loop-left-by-error-then-called-again" } else { "other" }
 }
 
 pub fn run(input: &Value) -> Option<Value> {
